@@ -248,8 +248,13 @@ def run(cx):
             if name_matches(c.fn, "HashMap::entry"):
                 ok = mentions_upvar(o.of_operand(c.args[0]), "self__dial_backoff_states") and is_param(strip_identity(o.of_operand(c.args[1])), "peer_id")
                 return "entry" if ok else "entry(?)"
+            if name_matches(c.fn, "HashMap::get_mut"):
+                ok = mentions_upvar(o.of_operand(c.args[0]), "self__dial_backoff_states") and is_param(strip_identity(o.of_operand(c.args[1])), "peer_id")
+                return "get_mut" if ok else "get_mut(?)"
             if name_matches(c.fn, f"{BS}::update"):
-                return "update(now,step,max)" if args_ok(c, o, 1) and term_has_call(o.of_operand(c.args[0]), "OccupiedEntry::get_mut") else "update(?)"
+                recv = o.of_operand(c.args[0])
+                on_state = term_has_call(recv, "OccupiedEntry::get_mut") or (term_has_call(recv, "HashMap::get_mut") and mentions_upvar(recv, "self__dial_backoff_states"))
+                return "update(now,step,max)" if args_ok(c, o, 1) and on_state else "update(?)"
             if name_matches(c.fn, f"{BS}::new"):
                 return "new(now,step,max)" if args_ok(c, o, 0) else "new(?)"
             if name_matches(c.fn, "VacantEntry::insert"):
@@ -258,7 +263,11 @@ def run(cx):
                 return "and_modify{update(now,step,max)}" if term_has_call(o.of_operand(c.args[0]), "HashMap::entry") and upsert(c, o, "update") else "and_modify(?)"
             if name_matches(c.fn, "hash::map::Entry::or_insert_with"):
                 return "or_insert_with{new(now,step,max)}" if term_has_call(o.of_operand(c.args[0]), "Entry::and_modify") and upsert(c, o, "new") else "or_insert_with(?)"
-            if name_matches(c.fn, ("hash::map::Entry::or_insert", "hash::map::Entry::or_default", "hash::map::Entry::insert_entry", "HashMap::insert")):
+            if name_matches(c.fn, "HashMap::insert"):
+                ok = mentions_upvar(o.of_operand(c.args[0]), "self__dial_backoff_states") and is_param(strip_identity(o.of_operand(c.args[1])), "peer_id") \
+                    and term_has_call(o.of_operand(c.args[2]), f"{BS}::new")
+                return "insert" if ok else "upsert(?)insert"
+            if name_matches(c.fn, ("hash::map::Entry::or_insert", "hash::map::Entry::or_default", "hash::map::Entry::insert_entry")):
                 return "upsert(?)" + c.fn.split("::")[-1]
             if name_matches(c.fn, "core::panicking::panic_fmt") and (c.exp or "").endswith("panic!"):
                 return "BUG-panic"
@@ -288,6 +297,10 @@ def run(cx):
         up = "try_recv recv=Ok inner=Err entry and_modify{update(now,step,max)} or_insert_with{new(now,step,max)} keep=false <return>"
         if up in ws:
             want = {w for w in want if "[Occupied]" not in w and "[Vacant]" not in w} | {up}
+        # or `if let Some(state) = states.get_mut(id) { state.update(..) } else { states.insert(id, new(..)) }`
+        gm = {"try_recv recv=Ok inner=Err get_mut update(now,step,max) keep=false <return>", "try_recv recv=Ok inner=Err get_mut [None] new(now,step,max) insert keep=false <return>"}
+        if gm <= ws:
+            want = {w for w in want if "[Occupied]" not in w and "[Vacant]" not in w} | gm
         ob.count(len(ws))
         for w in sorted(ws - want):
             ob.fail("refuted", "drain/unexpected/" + w.replace(" ", "_")[:140], f"drain closure: path `{w}` not in the specified behaviour", d.path, d.loc(), path=w)
@@ -309,12 +322,22 @@ def run(cx):
         ok = idx[0] == "binop" and idx[1] == "Rem"
         if ok:
             num, den = strip_identity(idx[2]), strip_identity(idx[3])
+            # attempts-or-0 as a match: phi(0 | (get(id) as Some).0.attempts)
+            if num[0] == "phi" and len(num[1]) == 2 and den[0] == "call" and name_matches(den[1], "vec::Vec::len") and mentions_field(den, "address"):
+                zs = [x for x in num[1] if int_of(x) == 0]
+                at = [strip_identity(x) for x in num[1] if int_of(x) is None]
+                okm = len(zs) == 1 and len(at) == 1 and at[0][0] == "field" and at[0][2] == "attempts" and term_has_call(at[0], "HashMap::get") \
+                    and mentions_field(at[0], "dial_backoff_states") and any(x[0] == "variant" and x[2] == "Some" for x in walk(at[0]))
+            else:
+                okm = False
             # attempts-or-0: `get(id).map(|s| s.attempts).unwrap_or(0)` or `get(id).map_or(0, |s| s.attempts)`
             form_a = num[0] == "call" and name_matches(num[1], "Option::unwrap_or") and int_of(num[2][1]) == 0
             form_b = num[0] == "call" and name_matches(num[1], "Option::map_or") and int_of(num[2][1]) == 0
             ok = (form_a or form_b) and term_has_call(num, "HashMap::get") and mentions_field(num, "dial_backoff_states") \
                 and den[0] == "call" and name_matches(den[1], "vec::Vec::len") and mentions_field(den, "address")
-            if ok:
+            if okm:
+                ok = True
+            elif ok:
                 mp = strip_identity(num[2][0])
                 if form_b:
                     mc = [num[2][2]] if num[2][2][0] == "agg" else []
